@@ -376,9 +376,9 @@ fn fold_op(mode: Mode, src: &str) -> String {
             plain
                 .iter()
                 .zip(l.iter())
-                .map(|((_, p), x)| {
+                .map(|((k, p), x)| {
                     let (a, b) = parse_text_range(p).unwrap_or((u32::MAX, u32::MAX));
-                    format!("{}-{}:{}", a, b, x)
+                    format!("{}:{}-{}:{}", k, a, b, x)
                 })
                 .collect(),
         ),
